@@ -3,7 +3,13 @@
 cd "$(dirname "$0")/.."; TIER=${1:-quick}
 for S in seeded/*/; do
   N=$(basename "$S"); C=${N%%-*}
-  D=$(mktemp -d /dev/shm/seedrc_XXXXXX); rsync -a --exclude .git --exclude __pycache__ /repo/ "$D/"
+  D=$(mktemp -d /dev/shm/seedrc_XXXXXX)
+  if [ -f "$S/PIN" ]; then
+    # the seeded change only has an effect on an earlier repository commit (a later fix: commit removed the mutated code from the path)
+    git -C /repo archive "$(cat "$S/PIN")" | tar -x -C "$D"; N="$N@$(cat "$S/PIN")"
+  else
+    rsync -a --exclude .git --exclude __pycache__ /repo/ "$D/"
+  fi
   if ! ( cd "$D" && patch -p1 -s < "$OLDPWD/$S/patch.diff" ); then echo "$N PATCH-DOES-NOT-APPLY"; rm -rf "$D"; continue; fi
   s=$(date +%s); out=$(VERIF_REPO="$D" ./check "$C" "$TIER" 2>&1); rc=$?; e=$(date +%s)
   echo "$N $C $TIER rc=$rc $((e-s))s"
